@@ -96,7 +96,43 @@ def plan(pid, tier, seed):
         M += models.for_property(pid, tier)
     else:
         raise runner.ToolError(f"no plan for property {pid}")
+    S = [with_metrics(sc) for sc in S]
     return M, S
+
+
+METRIC_PATHS = [("/metrics", None), ("/metrics", "x=1"), ("/", None), ("/metrics/", None), ("", None), ("/Metrics", None),
+                ("/metrics", "a?b"), ("/nope", "metrics")]
+
+
+def with_metrics(sc, budget=24):
+    """Inserts requests to the metrics endpoint (http_request) after state-changing messages of a scenario: at
+    most `budget` per scenario, evenly spread, deterministic; every eighth one asks for another path / query."""
+    cmds = sc.get("cmds")
+    if not cmds or any(c.get("ep") == "metrics" for c in cmds):
+        return sc
+    pos = [i for i, c in enumerate(cmds) if c.get("c") in ("hb", "hb_reply", "upgrade", "set_config", "send_tx", "ingest", "push", "bulk_push")]
+    if not pos:
+        return sc
+    if len(sc.get("blocks", [])) > 100 or len(sc.get("txs", [])) > 1000:
+        budget = 3          # every evaluation on a large universe is expensive for TLC
+    step = max(1, -(-len(pos) // budget))
+    chosen = set(pos[::step]) | {pos[-1]}
+    out = []
+    k = 0
+    for i, c in enumerate(cmds):
+        out.append(c)
+        if i in chosen:
+            k += 1
+            out.append({"c": "q", "ep": "metrics"})
+            if k % 8 == 0:
+                path, query = METRIC_PATHS[(k // 8) % len(METRIC_PATHS)]
+                d = {"c": "q", "ep": "metrics", "path": path}
+                if query is not None:
+                    d["query"] = query
+                out.append(d)
+    sc = dict(sc)
+    sc["cmds"] = out
+    return sc
 
 
 # ---------------------------------------------------------------------------------------------
